@@ -19,7 +19,8 @@ def contract(*a, **k):
 
 
 def configs_for(c):
-    return getattr(c, "_configs", None) or {"": {}}
+    cf = getattr(c, "_configs", None) or {"": {}}
+    return cf() if callable(cf) else cf
 
 
 def IsNone(x):
@@ -61,4 +62,72 @@ contract(
                        _ys[1] + L.ln_out(code.co_lnotab, Len(code.co_code), _k, offset, lineno, Not(IsNone(lastlineno)), OptVal(lastlineno),
                                          L.version_flags(version_tuple)[0], L.version_flags(version_tuple)[1], 1)
                        == _ln_expected(code, version_tuple, 1)))},
+)
+
+
+# ------------------------------------------------------------------------------------------------
+# C15: xstack_effect(op, opc, oparg) == CPython's dis.stack_effect(op, oparg) for every opcode of every
+# table that has an interpreter reference (3.6 - 3.13), for *all* operands 0 <= oparg < 2**30; where
+# CPython raises (no value) there is no demand.
+from spec import stack_effect as SE, reftables as RT
+from contracts.common import tables, REF
+from pyvc.types import OneOf
+
+
+def se_tables():
+    out = {}
+    for lb, m in tables().items():
+        if m.is_pypy:
+            continue
+        ver = "%d.%d" % tuple(m.version_tuple[:2])
+        o = RT.oracle(ver)
+        if o is None or not o.get("stack_effect"):
+            continue
+        out[lb] = {"opc": m, "jump": None}
+    return out
+
+
+def se_opcodes(opc):
+    ver = "%d.%d" % tuple(opc.version_tuple[:2])
+    forms, unfit = SE.forms(ver)
+    om = RT.oracle(ver)["opcode"]["opmap"]
+    return sorted((om[n], n) for n in forms if om[n] < 256)
+
+
+class Opcode(OneOf):
+    """one concrete opcode of the table under verification (the engine forks over all of them)"""
+    def __init__(self):
+        self.alts = ()
+
+    def __call__(self, eng, name):
+        opc = eng.entry_cfg["opc"]
+        self.alts = tuple(k for k, _ in se_opcodes(opc))
+        return OneOf.__call__(self, eng, name)
+
+    def examples(self, rng, n):
+        return list(range(0, 256))
+
+
+def se_post(opcode, opc, oparg, result):
+    ver = "%d.%d" % tuple(opc.version_tuple[:2])
+    forms, unfit = SE.forms(ver)
+    inv = dict((k, n) for k, n in se_opcodes(opc))
+    name = inv.get(opcode)
+    if name is None:
+        return []
+    desc, fn, domain, errs = forms[name]
+    want = fn(oparg)
+    ok = (result == want) if result is not None else False
+    if domain == "noarg":
+        return [("effect/%s" % name, Implies(oparg == 0, ok))]
+    defined = And(*[oparg != e for e in errs]) if errs else True
+    return [("effect/%s" % name, Implies(defined, ok))]
+
+
+contract(
+    "xdis.cross_dis:xstack_effect",
+    configs=se_tables,
+    params={"opcode": Opcode(), "oparg": Int(0, SE.MAX_DEFINED - 1)},
+    ensures=se_post,
+    native_post=se_post,
 )
